@@ -777,6 +777,10 @@ def run(tier):
         data[rng.randrange(shape[0]), :] = 0
         data[rng.randrange(shape[0]), rng.randrange(shape[1])] = numpy.nan
         data[rng.randrange(shape[0]), rng.randrange(shape[1])] = numpy.inf
+        if rng.random() < 0.6:
+            # 'huge magnitudes': finite components whose magnitude overflows the sample type (|z| = inf although z is finite)
+            data[rng.randrange(shape[0]), rng.randrange(shape[1])] = numpy.complex64(complex(rng.choice([3e38, -3e38, 2.9e38]), rng.choice([3e38, -2.5e38])))
+            counts['from_reader_overflowing_magnitude'] = counts.get('from_reader_overflowing_magnitude', 0) + 1
         reader = make_reader(data)
         bounds = rng.choice([None, (0, shape[0], 0, shape[1]), (1, shape[0] - 1, 0, shape[1] - 1)])
         for cls in ('Density', 'Brighter', 'Darker', 'High_Contrast', 'Linear', 'Logarithmic', 'PEDF', 'NRL', 'LUT'):
